@@ -347,11 +347,11 @@ class Gen:
         if r.random() < 0.2:
             cs.append("(twhere %s)" % self.expr(d))
         k = r.random()
-        if k < 0.2:
+        if k < 0.15:
             cs.append("(nothing)")
-        elif k < 0.3:
+        elif k < 0.25:
             cs.append("(nothingon %s)" % " ".join(self.ident() for _ in range(r.randrange(1, 3))))
-        elif k < 0.75:
+        elif k < 0.6:
             for _ in range(r.randrange(1, 3)):
                 cs.append(r.choice(["(updcol %s)" % self.ident(), "(updexpr %s %s)" % (self.ident(), self.expr(d))]))
             if r.random() < 0.3:
@@ -402,7 +402,7 @@ class Gen:
             cs.append("(selectfrom %s)" % self.select(d - 1))
         elif k < 0.9:
             cs.append(r.choice(["(ordefault)", "(ordefaultmany %d)" % r.randrange(0, 4)]))
-        if r.random() < 0.25:
+        if r.random() < 0.4:
             cs.append(self.onconflict(d))
         if r.random() < 0.25:
             cs.append(self.returning(d))
